@@ -114,7 +114,7 @@ def run(ctx):
 
   from .common import factory_state_rule
   factory_state_rule(ctx, 'C18.lockset')
-  explicit_acquires(ctx, locks, 'C18.lockset')
+  ctx.section(explicit_acquires, ctx, locks, 'C18.lockset')
   # ---- C18.lockset
   op = [a for a in acc if a.store == '_OPERATIVE_CONFIG' and a.kind != 'init']
   ctx.expect_at_least('access sites of the operative record', len(op), 2)
